@@ -154,7 +154,10 @@ theorem code_tables_posix :
     Kind.isSpecial .commandExec = false ∧
     -- the here-document's descriptor is handed back without CLOEXEC (it can be the target itself, a user
     -- descriptor 0–9, with no `dup2` in between) and is closed when its content cannot be written
-    hereDocCloexec = false ∧ hereDocClosesOnFailure = true := by decide
+    hereDocCloexec = false ∧ hereDocClosesOnFailure = true ∧
+    -- `open_and_overwrite` duplicates onto the target first and closes the prepared descriptor afterwards
+    -- (the order `Model.overwrite` transcribes)
+    overwriteDup2BeforeClose = true := by decide
 
 /-- ★ for every oracle, table and redirection: when `perform` succeeds, the target descriptor is what
     POSIX says the operator makes of it (`Meaning`: a new non-CLOEXEC descriptor on a description
